@@ -695,6 +695,10 @@ class Eval:
         'core::num::next_power_of_two': lambda a: 1 if a <= 1 else 1 << (a - 1).bit_length(),
         'alloc::vec::from_elem': lambda x, n: ('vec', x, n),
         'core::convert::TryFrom::try_from': lambda x: ('Ok', x), 'core::convert::TryInto::try_into': lambda x: ('Ok', x),
+        # raw pointers are integers
+        'core::ptr::const_ptr::add': lambda p, k: p + k, 'core::ptr::mut_ptr::add': lambda p, k: p + k,
+        'core::ptr::const_ptr::sub': lambda p, k: p - k, 'core::ptr::mut_ptr::sub': lambda p, k: p - k,
+        'core::ptr::const_ptr::cast': lambda p: p, 'core::ptr::mut_ptr::cast': lambda p: p,
     }
     # the crate's integer newtypes are transparent
     for _ty in ('StateID', 'PatternID', 'SmallIndex'):
